@@ -364,6 +364,8 @@ class EPoll(BasePoller):
             self._map[fileno] = fd
         else:
             super().discard(fd)
+            if self._map.get(fileno) is fd:
+                del self._map[fileno]
 
     def addReader(self, source, fd):
         super().addReader(source, fd)
